@@ -93,7 +93,11 @@ void Encoder::putPacket(const Packet& packet)
         bytesLeft -= bytesToAdd;
 
         if (isSegmentedFlag == SegmentType::lastSegment)
-            addNewCMPFrame(packet);
+        {
+            // the frame of a last segment takes no further messages
+            cmpFrame.resize(cmpFrame.size() - bytesLeft);
+            bytesLeft = 0;
+        }
     }
 
 }
@@ -143,7 +147,9 @@ bool Encoder::checkIfSegmented(const Packet& packet)
     bool isSegmented = (!cmpFrames.empty() && bytesLeft < sizeof(MessageHeader) + packet.getPayloadLength());
     if (isSegmented)
     {
-        addNewCMPFrame(packet);
+        // a frame that holds no message yet is used as it is
+        if (bytesLeft != maxBytesPerMessage - sizeof(CmpHeader))
+            addNewCMPFrame(packet);
         isSegmented = (!cmpFrames.empty() && bytesLeft < sizeof(MessageHeader) + packet.getPayloadLength());
     }
     return isSegmented;
